@@ -27,10 +27,10 @@ struct C16
      c_double(r.cls("C16.double_operand_not_ieee")), c_assign(r.cls("C16.compound_assignment_differs")), c_trap(r.cls("C16.trap")) {}
   static bool converts(int t, u64 bits)
     {
-    if( t < 8 ) { i128 n = int_value(t, bits); return n >= -2147483647ll && n <= 2147483647ll; }
+    if( is_int_type(t) ) { i128 n = int_value(t, bits); return n >= -2147483647ll && n <= 2147483647ll; }
     float f = bits_f(bits); return f == f && std::fabs(static_cast<double>(f)) < 2147483647.0;
     }
-  static std::string tval(int t, u64 bits) { return t < 8 ? int_s(t, bits) : t == T_F32 ? dbl_s(bits_f(bits)) + " (float bits " + hex(bits) + ")" : dbl_s(bits_d(bits)) + " (double bits " + hex(bits) + ")"; }
+  static std::string tval(int t, u64 bits) { return is_int_type(t) ? int_s(t, bits) : t == T_F32 ? dbl_s(bits_f(bits)) + " (float bits " + hex(bits) + ")" : dbl_s(bits_d(bits)) + " (double bits " + hex(bits) + ")"; }
   // exact semantics of fixed*integer / fixed/integer; returns false when undefined for the oracle (division by zero handled: NaN)
   static bool exact_scalar(int op, i64 a, i128 n, i64 got)
     {
@@ -66,17 +66,17 @@ void explore16(Options const& o, std::vector<Shim*> const& shims, std::vector<Sh
   {
   bool th = o.tier == "thorough";
   std::vector<i64> Sa = th ? S_set(4,2) : S_set(3,1);
-  std::vector<std::vector<u64>> tv(10);
-  for( int t = 0; t < 8; ++t ) tv[t] = int_type_values(t, th ? 5 : 3, 1, th ? 32 : 4, th);
+  std::vector<std::vector<u64>> tv(T_CODES);
+  for( int t : INT_TYPES ) tv[t] = int_type_values(t, th ? 5 : 3, 1, th ? 32 : 4, th);
   tv[T_F32] = float_values(th); tv[T_F64] = double_values(th);
-  { std::string d = "a in S', |S'|=" + std::to_string(Sa.size()) + "; operand values per type:"; for( int t = 0; t < 10; ++t ) d += std::string(" ") + TN[t] + "=" + std::to_string(tv[t].size());
+  { std::string d = "a in S', |S'|=" + std::to_string(Sa.size()) + "; operand values per type:"; for( int t : ALL_TYPES ) d += std::string(" ") + TN[t] + "=" + std::to_string(tv[t].size());
     rec.note("alphabet", d + "; x 4 operators x {a op t, t op a, a op= t}"); }
   C16 c(rec);
   for( size_t ci = 0; ci < shims.size(); ++ci )
     {
     Shim* s = shims[ci];
     u64 ob = static_cast<u64>(ci) << 56;
-    for( int t = 0; t < 10; ++t ) for( int op = 0; op < 4; ++op )
+    for( int t : ALL_TYPES ) for( int op = 0; op < 4; ++op )
       {
       std::vector<u64> const& ts = tv[t];
       std::mutex m; u64 n_prom = 0, n_exact = 0, n_dbl = 0, n_asg = 0, n_skipped = 0;
@@ -116,7 +116,7 @@ void explore16(Options const& o, std::vector<Shim*> const& shims, std::vector<Sh
         else
           {
           bool conv_ok = C16::converts(t, tb);
-          bool is_int = t < 8;
+          bool is_int = is_int_type(t);
           i128 n = is_int ? int_value(t, tb) : 0;
           bool have_prom = false;
           if( conv_ok )
@@ -170,7 +170,7 @@ void replay16(Options const& o, Shim* s, Recorder& rec)
       return; }
   i64 gi = static_cast<i64>(g);
   if( ord == 2 ) { i64 r = static_cast<i64>(s->fm_mixed(op, t, O_FIX_T, a, tb)); if( r != gi ) mk(c.c_assign, to_s(r), to_s(gi)); return; }
-  bool is_int = t < 8; bool exact = is_int && (op == M_MUL || (op == M_DIV && ord == 0));
+  bool is_int = is_int_type(t); bool exact = is_int && (op == M_MUL || (op == M_DIV && ord == 0));
   if( exact ) { if( !C16::exact_scalar(op, a, int_value(t, tb), gi) ) mk(c.c_exact, "exact integer semantics", to_s(gi)); return; }
   if( C16::converts(t, tb) )
     { i64 cv = is_int ? s->fm_from_int(FI_CTOR, t, tb) : s->fm_from_fp(FF_CTOR, T_F32, tb); i64 e = 0;
@@ -180,7 +180,7 @@ void replay16(Options const& o, Shim* s, Recorder& rec)
 
 //====================================================================== C17
 // Model of one transition (value semantics of C01 / C02 / C03): returns false when the model leaves the result unspecified.
-struct Op { int kind; i64 arg; };       // 0: +b  1: -b  2: *n  3: /n
+struct Op { int kind; i64 arg; int type; };       // 0: +b  1: -b  2: *n  3: /n  (n of integral type 'type')
 inline bool model_step(Op const& op, i64 x, i64& y, bool& nan)
   {
   i128 r;
@@ -201,19 +201,36 @@ inline i64 impl_step(Shim* s, Op const& op, i64 x)
     {
     case 0: return s->fm_bin(B_ADD, x, op.arg);
     case 1: return s->fm_bin(B_SUB, x, op.arg);
-    case 2: return static_cast<i64>(s->fm_mixed(M_MUL, T_I64, O_FIX_T, x, static_cast<u64>(op.arg)));
-    default: return static_cast<i64>(s->fm_mixed(M_DIV, T_I64, O_FIX_T, x, static_cast<u64>(op.arg)));
+    case 2: return static_cast<i64>(s->fm_mixed(M_MUL, op.type, O_FIX_T, x, static_cast<u64>(op.arg) & t_mask(op.type)));
+    default: return static_cast<i64>(s->fm_mixed(M_DIV, op.type, O_FIX_T, x, static_cast<u64>(op.arg) & t_mask(op.type)));
     }
   }
-std::string op_s(Op const& op) { static const char* k[4] = { "+", "-", "*", "/" }; return std::string(k[op.kind]) + (op.kind < 2 ? "fixed(raw " : "int64(") + to_s(op.arg) + ")"; }
+std::string op_s(Op const& op) { static const char* k[4] = { "+", "-", "*", "/" }; return std::string(k[op.kind]) + (op.kind < 2 ? std::string("fixed(raw ") : std::string(TN[op.type]) + "(") + to_s(op.arg) + ")"; }
+// integers n with the integral type that carries them
+std::vector<std::pair<int,i64>> typed_n()
+  {
+  std::vector<std::pair<int,i64>> v;
+  for( i64 n = -7; n <= 7; ++n ) v.push_back({T_I64, n});
+  for( i64 n : { 1ll<<15, 1ll<<31, (1ll<<31)+1, 64ll, 63ll, 10ll } ) { v.push_back({T_I64, n}); v.push_back({T_I64, -n}); }
+  for( i64 n : { 3ll, 128ll, 200ll, 255ll } ) v.push_back({T_U8, n});
+  for( i64 n : { -128ll, -3ll, 127ll } ) v.push_back({T_I8, n});
+  for( i64 n : { 9ll, 32768ll, 65535ll } ) v.push_back({T_U16, n});
+  for( i64 n : { -32768ll, 32767ll } ) v.push_back({T_I16, n});
+  for( i64 n : { 5ll, 1ll<<31, (1ll<<32)-1 } ) v.push_back({T_U32, n});
+  for( i64 n : { -(1ll<<31), (1ll<<31)-1, -11ll } ) v.push_back({T_I32, n});
+  for( i64 n : { 6ll, (1ll<<32)+1, 1ll<<62 } ) v.push_back({T_U64, n});
+  for( i64 n : { 3ll, 1ll<<40 } ) v.push_back({T_ULL, n});
+  for( i64 n : { -5ll, 12ll } ) v.push_back({T_LL, n});
+  return v;
+  }
 
 struct C17
   {
   Recorder& rec; int c_step, c_law, c_trap;
-  std::vector<i64> B; std::vector<i64> N;
+  std::vector<i64> B; std::vector<std::pair<int,i64>> N;
   explicit C17(Recorder& r) : rec(r), c_step(r.cls("C17.transition_differs_from_model")), c_law(r.cls("C17.law_violated")), c_trap(r.cls("C17.trap")) {}
   // all law instances anchored at state a; returns number of instances whose premise held
-  template<typename V> u64 laws(Shim* s, i64 a, u64 order, V& lv, bool with_mulcomm)
+  template<typename V> u64 laws(Shim* s, i64 a, u64 order, V& lv, bool with_mulcomm, bool long_sums = false)
     {
     u64 cnt = 0;
     auto bad = [&](const char* law, std::string detail, i64 l, i64 r, i64 b, i64 n) {
@@ -241,17 +258,18 @@ struct C17
       if( with_mulcomm ) { i64 p1 = s->fm_bin(B_MUL, a, b), p2 = s->fm_bin(B_MUL, b, a); ++cnt; if( p1 != p2 ) bad("a * b == b * a", "", p1, p2, b, 0); }
       if( !fx_isnan(ab) ) { i64 back = sub(ab, b); if( !fx_isnan(back) ) { ++cnt; if( back != a ) bad("(a + b) - b == a", "no intermediate NaN", back, a, b, 0); } }
       }
-    for( i64 n : N )
+    for( auto const& tn : N )
       {
-      i64 an = static_cast<i64>(s->fm_mixed(M_MUL, T_I64, O_FIX_T, a, static_cast<u64>(n)));
+      int nt = tn.first; i64 n = tn.second; u64 nb = static_cast<u64>(n) & t_mask(nt);
+      i64 an = static_cast<i64>(s->fm_mixed(M_MUL, nt, O_FIX_T, a, nb));
       if( fx_isnan(an) ) continue;
       if( n != 0 )
         {
-        i64 q = 0; int sg = guarded([&]{ q = static_cast<i64>(s->fm_mixed(M_DIV, T_I64, O_FIX_T, an, static_cast<u64>(n))); });
+        i64 q = 0; int sg = guarded([&]{ q = static_cast<i64>(s->fm_mixed(M_DIV, nt, O_FIX_T, an, nb)); });
         if( sg ) lv.hit(c_trap, order, [=]{ return ex1(s, "(a * n) / n", "", {{"a",to_s(a)},{"n",to_s(n)}}, "returns normally", "signal " + std::to_string(sg), "law", {to_s(a)}); });
         else if( !fx_isnan(q) ) { ++cnt; if( q != a ) bad("(a * n) / n == a", "no intermediate NaN", q, a, 0, n); }
         }
-      if( n >= 0 && n <= 64 )
+      if( n >= 0 && (n <= 64 || (long_sums && n <= 255)) )
         {
         i64 sum = 0; bool ok = true;
         for( i64 k = 0; k < n && ok; ++k ) { sum = add(sum, a); if( fx_isnan(sum) ) ok = false; }
@@ -285,16 +303,15 @@ void explore17(Options const& o, std::vector<Shim*> const& shims, std::vector<Sh
   bool th = o.tier == "thorough";
   C17 c(rec);
   c.B = S_set(1,0);
-  for( i64 n = -7; n <= 7; ++n ) c.N.push_back(n);
-  for( i64 n : { 1ll<<15, 1ll<<31, (1ll<<31)+1, 64ll, 63ll, 10ll } ) { c.N.push_back(n); c.N.push_back(-n); }
+  c.N = typed_n();
   std::vector<Op> ops;
-  for( i64 b : c.B ) { ops.push_back(Op{0,b}); ops.push_back(Op{1,b}); }
-  for( i64 n : c.N ) { ops.push_back(Op{2,n}); ops.push_back(Op{3,n}); }
+  for( i64 b : c.B ) { ops.push_back(Op{0,b,T_I64}); ops.push_back(Op{1,b,T_I64}); }
+  for( auto const& tn : c.N ) { ops.push_back(Op{2,tn.second,tn.first}); ops.push_back(Op{3,tn.second,tn.first}); }
   std::vector<i64> seeds = S_set(2,1);
   int depth = th ? 3 : 2;
   std::vector<i64> cube = th ? S_set(2,1) : S_set(1,1);
   rec.note("alphabet", "BFS over operation histories: " + std::to_string(seeds.size()) + " seed values S(2,1), alphabet of " + std::to_string(ops.size()) + " operations (+b, -b for " + std::to_string(c.B.size())
-           + " b in S(1,0); *n, /n for " + std::to_string(c.N.size()) + " integers n), depth " + std::to_string(depth) + " (states de-duplicated by value; the last level is checked but not expanded); laws evaluated at every stored state; three-operand laws on the cube of " + std::to_string(cube.size()) + "^3 values");
+           + " b in S(1,0); *n, /n for " + std::to_string(c.N.size()) + " typed integers n of 10 integral types), depth " + std::to_string(depth) + " (states de-duplicated by value; the last level is checked but not expanded); laws evaluated at every stored state; three-operand laws on the cube of " + std::to_string(cube.size()) + "^3 values");
   for( size_t ci = 0; ci < shims.size(); ++ci )
     {
     Shim* s = shims[ci];
@@ -318,14 +335,14 @@ void explore17(Options const& o, std::vector<Shim*> const& shims, std::vector<Sh
             i64 y = 0; int sg = 0;
             if( op.kind == 3 ) sg = guarded([&]{ y = impl_step(s, op, x); }); else y = impl_step(s, op, x);
             ++lt;
-            if( sg ) { lv.hit(c.c_trap, ord | k, [=]{ return ex1(s, "transition " + op_s(op), "level " + std::to_string(lvl), {{"x",to_s(x)}}, "returns normally", "signal " + std::to_string(sg), "step", {to_s(op.kind), to_s(op.arg), to_s(x)}); }); continue; }
+            if( sg ) { lv.hit(c.c_trap, ord | k, [=]{ return ex1(s, "transition " + op_s(op), "level " + std::to_string(lvl), {{"x",to_s(x)}}, "returns normally", "signal " + std::to_string(sg), "step", {to_s(op.kind), to_s(op.arg), to_s(x), to_s(op.type)}); }); continue; }
             i64 my = 0; bool mnan = false; model_step(op, x, my, mnan);
             bool ok = mnan ? fx_isnan(y) : y == my;
-            if( !ok ) lv.hit(c.c_step, ord | k, [=]{ return ex1(s, "transition " + op_s(op), "level " + std::to_string(lvl), {{"x",to_s(x)}}, mnan ? "NaN" : to_s(my), to_s(y), "step", {to_s(op.kind), to_s(op.arg), to_s(x)}); });
+            if( !ok ) lv.hit(c.c_step, ord | k, [=]{ return ex1(s, "transition " + op_s(op), "level " + std::to_string(lvl), {{"x",to_s(x)}}, mnan ? "NaN" : to_s(my), to_s(y), "step", {to_s(op.kind), to_s(op.arg), to_s(x), to_s(op.type)}); });
             if( mnan ) ++ln;
             else if( !last && ok ) local.push_back(y);
             }
-          if( do_laws ) li += c.laws(s, x, ord, lv, lvl <= 1);
+          if( do_laws ) li += c.laws(s, x, ord, lv, lvl <= 1, lvl == 0);
           }
         std::lock_guard<std::mutex> g(m); law_instances += li; nan_trans += ln; trans += lt;
         if( !local.empty() ) next.insert(next.end(), local.begin(), local.end());
@@ -354,19 +371,18 @@ void explore17(Options const& o, std::vector<Shim*> const& shims, std::vector<Sh
     rec.count("law_instances_with_premise", tl);
     }
   rec.sample("history: seed raw 65536, +fixed(raw 2^62), +fixed(raw 2^62) -> " + to_s(shims[0]->fm_bin(B_ADD, shims[0]->fm_bin(B_ADD, 65536, 1ll<<62), 1ll<<62)) + " (NaN: terminal state)");
-  rec.sample("law (a*n)/n == a at a=raw 205887, n=7: " + to_s(static_cast<i64>(shims[0]->fm_mixed(M_DIV, T_I64, O_FIX_T, static_cast<i64>(shims[0]->fm_mixed(M_MUL, T_I64, O_FIX_T, 205887, 7)), 7))));
+  rec.sample("law (a*n)/n == a at a=raw 205887, n=uint8_t(200): " + to_s(static_cast<i64>(shims[0]->fm_mixed(M_DIV, T_U8, O_FIX_T, static_cast<i64>(shims[0]->fm_mixed(M_MUL, T_U8, O_FIX_T, 205887, 200)), 200))));
   }
 void replay17(Options const& o, Shim* s, Recorder& rec)
   {
   C17 c(rec); DirectViol d{rec};
   c.B = S_set(1,0);
-  for( i64 n = -7; n <= 7; ++n ) c.N.push_back(n);
-  for( i64 n : { 1ll<<15, 1ll<<31, (1ll<<31)+1, 64ll, 63ll, 10ll } ) { c.N.push_back(n); c.N.push_back(-n); }
-  if( o.rcase == "law" ) c.laws(s, parse_i64(o.rin.at(0)), 0, d, true);
+  c.N = typed_n();
+  if( o.rcase == "law" ) c.laws(s, parse_i64(o.rin.at(0)), 0, d, true, true);
   else if( o.rcase == "triple" ) c.triple(s, parse_i64(o.rin.at(0)), parse_i64(o.rin.at(1)), parse_i64(o.rin.at(2)), 0, d);
   else
     {
-    Op op{ static_cast<int>(parse_i64(o.rin.at(0))), parse_i64(o.rin.at(1)) }; i64 x = parse_i64(o.rin.at(2));
+    Op op{ static_cast<int>(parse_i64(o.rin.at(0))), parse_i64(o.rin.at(1)), static_cast<int>(parse_i64(o.rin.at(3))) }; i64 x = parse_i64(o.rin.at(2));
     i64 y = 0; int sg = guarded([&]{ y = impl_step(s, op, x); });
     if( sg ) rec.viol(c.c_trap, 0, [&]{ return ex1(s, "transition " + op_s(op), "", {{"x",to_s(x)}}, "returns normally", "signal " + std::to_string(sg), o.rcase, o.rin); });
     else { i64 my = 0; bool mnan = false; model_step(op, x, my, mnan);
